@@ -64,6 +64,18 @@ func init() {
 			}
 		}})
 
+	register(Suite{Name: "c18-render", Property: "C18",
+		Rule: "complete renderings of generated messages with producers that write in adversarial chunkings; every header section and every quoted-printable / base64 body is checked for CRLF-only line ends and the line length bounds; non-trivial = a header folds or a body wraps; distinct by operation list",
+		Run: func(c *Ctx) {
+			n := c.N(800, 40000)
+			for i := 0; i < n; i++ {
+				spc := genSpec(c.Rng, genOpts{maxParts: 3, maxFiles: 3, noFails: true})
+				if outs, ok := renderCase(c, spc, 1, ""); ok {
+					oracleLines(c, spc, outs[0])
+				}
+			}
+		}})
+
 	register(Suite{Name: "c02-render", Property: "C02",
 		Rule: "messages whose subject, generic headers, descriptions, file names and content-ids come from an adversarial text generator (CR, LF, NUL, control, non-ASCII, encoded-word look-alikes, any length), Q and B header encoders, all shapes; rendered by the implementation and the model; strict field scanner on every header section; non-trivial = some text needs encoding; distinct by operation list",
 		Run: func(c *Ctx) {
